@@ -103,12 +103,15 @@ static void pick_dir(struct dir *d, int idx)
 static void run(void)
 {
 	struct dir D[3];
-	int n = 1 + vp_choose(ndirs_max, "directives"), i, scase, dcase;
+	int n = 1 + vp_choose(ndirs_max, "directives"), i, scase, dcase, xs;
 	size_t fl = 0, fit, dcap, got;
 	const char *lit[4];
 	char *dbuf;
 	ni = nd = 0; memset(IA, 0, sizeof IA); memset(DA, 0, sizeof DA);
 	for (i = 0; i <= n; i++) { int c = vp_choose(n == 1 ? 3 : 2, "literal"); lit[i] = c == 2 ? lit600 : LITS[c]; }
+	/* the extended-information marker (QB_XS) behind the last conversion: followed by text it is stored as '|', at the very end it is dropped */
+	xs = lit[n] == LITS[0] ? vp_choose(3, "extended-information marker") : 0;
+	if (xs) lit[n] = xs == 1 ? "\a" : "\aext";
 	for (i = 0; i < n; i++) {
 		pick_dir(&D[i], i);
 		if (!legal(&D[i])) { vp_pruned(); return; }
@@ -118,6 +121,10 @@ static void run(void)
 	}
 	fl += snprintf(fmt + fl, sizeof fmt - fl, "%s", lit[n]);
 	do_printf(fmt, ARGS);
+	if (xs && ref_len >= 0 && ref_len < (int)sizeof ref_text) {
+		char *m = strchr(ref_text, '\a');
+		if (m && m[1]) *m = '|'; else if (m) { *m = 0; ref_len--; }
+	}
 	vp_log("format '%.100s%s' (%zu chars)  printf -> %d chars", fmt, fl > 100 ? "..." : "", fl, ref_len);
 
 	/* 1. how much room does the record need */
